@@ -651,6 +651,13 @@ def _cache_key_rules(ck, P):
                 same = bool(gets) and all(comp.deep_place(g["a"][0], lets) == keyp for g in gets)
                 ck.check(same, "R-CACHE-KEY", "%s|get/add(%s)" % (b["q"], keyp), "the value is added under the key it was looked up with (`%s`)" % keyp,
                          "lookup key %s and insertion key `%s` differ" % ([comp.deep_place(g["a"][0], lets) for g in gets], keyp), ir.loc(n))
+                # ... and only a value that passed every check of this function is added: an early exit (ensure!, `?`, return) that is
+                # evaluated AFTER the add leaves a rejected value in the cache, and the next lookup of the key returns it as a hit
+                order = {id(y): i for i, y in enumerate(ir.walk_nodes(ir.fn_block(b)))}
+                late = [ir.loc(y) for y in ir.walk_nodes(ir.fn_block(b)) if y.get("k") in ("ret", "try") and id(y) in order and id(n) in order and order[id(y)] > order[id(n)] and
+                        not ir.contains(y, lambda z: z is n)]
+                ck.check(not late, "R-CACHE-KEY", "%s|add-after-validation(%s)" % (b["q"], keyp), "nothing can reject the value after it was added to the cache",
+                         "the value is added to the cache before it is validated (early exits after the add at %s): a value that fails the check stays cached and the next lookup of `%s` returns it without any error" % (late[:3], keyp), ir.loc(n))
                 root, _, acc = keyp.partition(".")
                 ident = acc in IDENTITY_ACCESSORS
                 # inputs of the computation: every ByteRange read in this function is taken from the same object
